@@ -402,7 +402,7 @@ def dedup(ck, c, f, reject):
             E = r
             # the scan runs over stored edges, deleted ones included (deferred deletion): the returned edge must be live -
             # the cache-guided sibling never sees a deleted edge, because deletion unlinks it from the vertex lists
-            live.append(("is_deleted(%s)" % E, False) in fs or any(re.fullmatch(r"edge_deleted_\[.*\]", s_) and p_ is False and E.strip("()") in s_ or (s_ == "%s.is_deleted()" % E and p_ is False) for s_, p_ in fs))
+            live.append(("is_deleted(%s)" % E, False) in fs or any(re.fullmatch(r"edge_deleted_\[.*\](\.operator bool\(\))?", s_) and p_ is False and E.strip("()") in s_ or (s_ == "%s.is_deleted()" % E and p_ is False) for s_, p_ in fs))
             if {(ceq("edge(%s).from_vertex()" % E, "P0"), True), (ceq("edge(%s).to_vertex()" % E, "P1"), True)} <= fs:
                 fwd = True
             if {(ceq("edge(%s).from_vertex()" % E, "P1"), True), (ceq("edge(%s).to_vertex()" % E, "P0"), True)} <= fs:
